@@ -141,13 +141,22 @@ def gen_cases(ctx):
         return out if changed else None
     b2b = [x for x in (back_to_back(c) for c in cases[:60000] if len(c) <= 6) if x]
     cases += b2b
+    # resets with time passing in between while the timer task gets no turn (A<ms>: the session doing synchronous work between two
+    # resets): the tick comes one interval after the *last* of them.  No deadline lies inside such a stretch.
+    for d1 in (97, 2600):
+        for g in (250, 1000, 1003):
+            for g2 in (None, 499):
+                mid = ['R', 'A%d' % g] + (['R', 'A%d' % g2] if g2 else [])
+                cases.append(['s', 'a%d' % d1] + mid + ['r', 'w%d' % (10000 - 100), 'w%d' % 200, 'w2600'])
+                cases.append(['s', 'a%d' % d1] + mid + ['r', 'a%d' % 5000, 'r', 'w%d' % (10000 - 100), 'w%d' % 200])
+                cases.append(['s', 'w%d' % 10400] + mid + ['r', 'w%d' % (10000 - 100), 'w%d' % 200])
     # keep total elapsed time below 50 units so that no command lands on a deadline
     out = []
     for ops in cases:
         tot = 0
         keep = []
         for o in ops:
-            if o[0] in 'aw':
+            if o[0] in 'awA':
                 d = int(o[1:])
                 if tot + d >= 49 * UNIT:
                     break
@@ -167,7 +176,7 @@ def oracle(ctx, ops, toks, line, interval):
     for o, tk in zip(ops, toks):
         if tk == 'OVERRUN':
             return
-        if o[0] in 'SRX':
+        if o[0] in 'SRXA':
             o = o.lower()
         if o == 's':
             last_anchor = now
